@@ -80,6 +80,139 @@ def _run_quadrant(fn, x, y):
     return block(fn.body)
 
 
+def orientation_rule(ctx, rule):
+    """The reported angle (atan2 of two direction cosines of the in-plane axes) and the reported angle rate (projection of
+    Omega2 - Omega1 on e_axis) must be measured about the SAME oriented axis, for each of the three possible joint axes:
+      - (axis, a, b) with (a, b) = plane_axes(axis) is an even permutation of (0, 1, 2)  [exhaustive folding over axis in {0,1,2}]
+      - x is a cosine (e_a2 . e_a1 or e_b2 . e_b1), y is the sine with the sign of (e_a2 . e_b1)
+    Otherwise angle_dot = - d(angle)/dt for that axis: force laws on the joint turn from dissipating to generating energy."""
+    from .. import finite
+    rep = ctx.rep
+    cls = ctx.model.cls("Revolute", REV)
+    init, l = cls.methods.get("__init__"), cls.methods.get("l")
+    if init is None or l is None:
+        raise AnalysisError(f"{REV}: Revolute.__init__ / l vanished")
+    C = f"{REV}:Revolute.__init__"
+    pa = [n for n in ast.walk(init) if isinstance(n, ast.Assign) and norm_src(n.targets[0]) == "self.plane_axes"]
+    if len(pa) != 1:
+        raise AnalysisError(f"{C}: `self.plane_axes = ...` not found")
+    # sign of y relative to sin(angle) and kind of x, from l()
+    loc = {}
+    for n in ast.walk(l):
+        if isinstance(n, ast.Assign) and len(n.targets) == 1:
+            t = n.targets[0]
+            if isinstance(t, ast.Name):
+                loc[t.id] = n.value
+            elif isinstance(t, ast.Tuple) and norm_src(n.value) == "self.plane_axes" and len(t.elts) == 2:
+                loc[t.elts[0].id], loc[t.elts[1].id] = "PA0", "PA1"
+
+    def col(e):
+        """(body, which plane axis) of a direction vector expression A_IJk[:, a]"""
+        seen = 0
+        while isinstance(e, ast.Name) and e.id in loc and not isinstance(loc[e.id], str) and seen < 5:
+            e = loc[e.id]
+            seen += 1
+        if isinstance(e, ast.Subscript) and isinstance(e.slice, ast.Tuple) and len(e.slice.elts) == 2:
+            base, idx = e.value, e.slice.elts[1]
+            seen = 0
+            while isinstance(base, ast.Name) and base.id in loc and not isinstance(loc[base.id], str) and seen < 5:
+                base = loc[base.id]
+                seen += 1
+            b = norm_src(base)
+            body = 1 if "A_IJ1" in b else 2 if "A_IJ2" in b else None
+            which = loc.get(idx.id) if isinstance(idx, ast.Name) else None
+            if body and which in ("PA0", "PA1"):
+                return body, which
+        return None
+
+    def dot(e):
+        sg = 1
+        while isinstance(e, ast.UnaryOp) and isinstance(e.op, ast.USub):
+            sg, e = -sg, e.operand
+        if isinstance(e, ast.BinOp) and isinstance(e.op, ast.MatMult):
+            a, b = col(e.left), col(e.right)
+            if a and b and {a[0], b[0]} == {1, 2}:
+                d = dict([a, b])
+                return sg, d[1], d[2]  # (sign, plane axis taken from body 1, plane axis taken from body 2)
+        return None
+
+    Cl = f"{REV}:Revolute.l"
+    x, y = dot(loc.get("x")) if "x" in loc else None, dot(loc.get("y")) if "y" in loc else None
+    if x is None or y is None:
+        rep.ok(rule, Cl, "x / y are not direction cosines of the in-plane joint axes in a form the analysis reads (no verdict)", verdict="unknown", trivial=True)
+        return
+    if not (x[1] == x[2] and x[0] == 1):
+        rep.bad(rule, Cl, loc["x"], "x is not the cosine of the relative angle (e_a2 . e_a1 or e_b2 . e_b1)", f"{REV}:{loc['x'].lineno}")
+        return
+    if y[1] == y[2]:
+        rep.bad(rule, Cl, loc["y"], "y is not the sine of the relative angle (it pairs the same in-plane axis of both bodies)", f"{REV}:{loc['y'].lineno}")
+        return
+    # e_a2 = cos e_a1 + sin e_b1  =>  e_a2 . e_b1 = + sin ;  e_b2 . e_a1 = - sin
+    ysign = y[0] * (1 if (y[2], y[1]) == ("PA0", "PA1") else -1)
+    rep.ok(rule, Cl, f"x = cos(angle), y = {'+' if ysign > 0 else '-'}sin(angle) w.r.t. the oriented pair (plane_axes[0], plane_axes[1])")
+    # orientation of the rate: sign with which Omega2 enters l_dot
+    from .. import twobody
+    ld = cls.methods.get("l_dot")
+    rets = [n.value for n in ast.walk(ld) if isinstance(n, ast.Return) and n.value is not None] if ld is not None else []
+    s2 = {sg for r in rets for (d, sg, _) in twobody.signed_calls(r) if d == "self.Omega2"}
+    if len(s2) != 1:
+        rep.ok(rule, f"{REV}:Revolute.l_dot", "sign of Omega2 in l_dot not syntactically determinate (no verdict on the orientation)", verdict="unknown", trivial=True)
+        return
+    ysign *= s2.pop()
+    for axis in (0, 1, 2):
+        try:
+            ab = finite.ev(pa[0].value, {"axis": axis, "self.axis": axis})
+        except finite.Unknown as e:
+            rep.ok(rule, C, f"axis={axis}: plane_axes expression not foldable ({e}) (no verdict)", verdict="unknown", trivial=True)
+            continue
+        par = finite.parity([axis] + list(ab)) if isinstance(ab, list) and len(ab) == 2 else None
+        if par is None:
+            rep.bad(rule, C, pa[0], f"axis={axis}: plane_axes = {ab} is not the pair of the two other axes", f"{REV}:{pa[0].lineno}")
+        elif par * ysign == 1:
+            rep.ok(rule, C, f"axis={axis}: plane_axes = {tuple(ab)}, (axis, a, b) right-handed: angle and angle rate are measured about +e_{'xyz'[axis]}")
+        else:
+            rep.bad(rule, C, pa[0], f"axis={axis}: plane_axes = {tuple(ab)} makes (axis, a, b) a left-handed triad, so the reported angle grows about -e_{'xyz'[axis]} while the "
+                    f"reported rate (Omega2 - Omega1) . e_axis and the force direction W_l are about +e_{'xyz'[axis]}: angle_dot = -d(angle)/dt, and a spring/damper on this "
+                    "joint does work of the wrong sign", f"{REV}:{pa[0].lineno}")
+
+
+def rate_rule(ctx):
+    """l_dot must consist of exactly the monomials {axis(t, q) . Omega1, axis(t, q) . Omega2} with the SAME state-dependent joint
+    basis (A_IJ1 or A_IJ2, evaluated at the current (t, q): the axis moves with the bodies) and with opposite signs; """
+    from .. import support, protocol, twobody
+    rep = ctx.rep
+    ci = ctx.model.cls("Revolute", REV)
+    view = protocol.ClassView(ctx, ci)
+    C = f"{REV}:Revolute.l_dot"
+    S, why = support.support_of(view, "l_dot")
+    c, fn = view.method("l_dot")
+    if fn is None:
+        raise AnalysisError(f"{C} vanished")
+    if S is None:
+        rep.bad("C25.R7", C, fn.name, f"the angle rate is not a polynomial expression of the kinematic atoms ({why}): it cannot be the axis projection of the relative angular velocity",
+                f"{REV}:{fn.lineno}")
+        return
+    mons = sorted(S)
+    om = sorted({a for m in mons for a in m if a.startswith("Omega")})
+    basis = sorted({a for m in mons for a in m if not a.startswith("Omega")})
+    okk = (len(mons) == 2 and om == ["Omega1", "Omega2"] and all(len(m) == 2 for m in mons) and len(basis) == 1 and basis[0] in ("A_IJ1", "A_IJ2"))
+    if okk:
+        rep.ok("C25.R7", C, f"support of l_dot = {mons}: both angular velocities projected on the current joint basis {basis[0]}(t, q)")
+    else:
+        rep.bad("C25.R7", C, fn.body[-1], f"support of l_dot is {mons}: expected exactly Omega1 and Omega2, each multiplied by the same state-dependent joint basis "
+                "A_IJ1(t, q) or A_IJ2(t, q) (a constant axis such as A_IJ0 stops being the joint axis as soon as subsystem 1 rotates)", f"{REV}:{fn.lineno}")
+    # (exactness of l_dot_u / l_dot_q / W_l as derivatives of l_dot is C08's clause: C08.R5 / R7)
+    info = twobody.FnInfo(fn)
+    res, occ = twobody.relative_polarity(info, fn)
+    rho = [r for (fam, kinds), r in res.items() if fam == "R" and r not in (None, 0)]
+    if rho and all(r == -1 for r in rho):
+        rep.ok("C25.R7", C, "Omega2 and Omega1 enter with opposite signs (relative angular velocity)")
+    elif rho:
+        rep.bad("C25.R7", C, fn.body[-1], "Omega2 and Omega1 enter the angle rate with the same sign: that is not the relative angular velocity", f"{REV}:{fn.lineno}")
+    else:
+        rep.ok("C25.R7", C, "sign ratio of Omega2 : Omega1 not syntactically determinate (no verdict)", verdict="unknown", trivial=True)
+
+
 def run(ctx):
     rep = ctx.rep
     rep.rule("C25.R1", "writers of the tracking state", 4)
@@ -88,6 +221,10 @@ def run(ctx):
     rep.rule("C25.R4", "_compute_quadrant over the 9 sign cases", 9)
     rep.rule("C25.R5", "no zero denominator under the quadrant's sign constraints", 4)
     rep.rule("C25.R6", "quadrant offsets (k-1)*pi/2", 4)
+    rep.rule("C25.R7", "angle rate = projection of Omega2 - Omega1 on the joint axis carried by the bodies (K10 support, K9 polarity)", 2)
+    rate_rule(ctx)
+    rep.rule("C25.R8", "angle and angle rate are measured about the same oriented axis for axis = 0, 1, 2 (finite folding of plane_axes, parity)", 4)
+    orientation_rule(ctx, "C25.R8")
     cls = ctx.model.cls("Revolute", REV)
     # R1
     allowed = {"__init__", "assembler_callback", "l", "reset"}
@@ -321,7 +458,31 @@ MUTANTS = [
     dict(id="c25-m8", what="negative x axis falls through to the error", file=REV,
          old="        elif x < 0 and y <= 0:\n            return 3", new="        elif x < 0 and y < 0:\n            return 3", expect="C25.R4"),
 ]
+MUTANTS += [
+    dict(id="c25-r7-seed", canary=True, what="[seeded by sub-agent] l_dot projects on the constant initial joint axis A_IJ0", file=REV,
+         old="        e_c1 = self.A_IJ1(t, q)[:, self.axis]\n        return (self.Omega2(t, q, u) - self.Omega1(t, q, u)) @ e_c1",
+         new="        e_c = self.A_IJ0[:, self.axis]\n        return (self.Omega2(t, q, u) - self.Omega1(t, q, u)) @ e_c", expect="C25.R7"),
+    dict(id="c25-r7-2", what="l_dot reports the sum of the angular velocities", file=REV,
+         old="        return (self.Omega2(t, q, u) - self.Omega1(t, q, u)) @ e_c1", new="        return (self.Omega2(t, q, u) + self.Omega1(t, q, u)) @ e_c1", expect="C25.R7"),
+    dict(id="c25-r7-3", what="l_dot reports only body 2's angular velocity", file=REV,
+         old="        return (self.Omega2(t, q, u) - self.Omega1(t, q, u)) @ e_c1", new="        return self.Omega2(t, q, u) @ e_c1", expect="C25.R7"),
+]
+MUTANTS += [
+    dict(id="c25-r8-seed", canary=True, what="[seeded by sub-agent] plane_axes = np.delete((0, 1, 2), axis): left-handed pair for axis = 1", file=REV,
+         old="        self.plane_axes = np.roll([0, 1, 2], -axis)[1:]", new="        self.plane_axes = np.delete((0, 1, 2), axis)", expect="C25.R8"),
+    dict(id="c25-r8-3", what="l_dot reports Omega1 - Omega2", file=REV,
+         old="        return (self.Omega2(t, q, u) - self.Omega1(t, q, u)) @ e_c1", new="        return (self.Omega1(t, q, u) - self.Omega2(t, q, u)) @ e_c1", expect="C25.R8"),
+    dict(id="c25-r8-2", what="l(): sine taken from e_b2 . e_a1 (opposite sign)", file=REV,
+         old="        e_a2 = A_IJ2[:, a]\n\n        # projections\n        y = e_a2 @ e_b1", new="        e_a2 = A_IJ2[:, a]\n        e_b2 = A_IJ2[:, b]\n\n        # projections\n        y = e_b2 @ e_a1", expect="C25.R8"),
+]
 NEUTRAL = [
+    dict(id="c25-n-r8", canary=True, what="plane_axes through modular arithmetic", file=REV,
+         old="        self.plane_axes = np.roll([0, 1, 2], -axis)[1:]", new="        self.plane_axes = np.array([(axis + 1) % 3, (axis + 2) % 3])"),
+    dict(id="c25-n-r8b", what="l(): sine from -(e_b2 . e_a1)", file=REV,
+         old="        e_a2 = A_IJ2[:, a]\n\n        # projections\n        y = e_a2 @ e_b1", new="        e_a2 = A_IJ2[:, a]\n        e_b2 = A_IJ2[:, b]\n\n        # projections\n        y = -(e_b2 @ e_a1)"),
+    dict(id="c25-n-r7", what="l_dot projects on body 2's copy of the axis", file=REV,
+         old="        e_c1 = self.A_IJ1(t, q)[:, self.axis]\n        return (self.Omega2(t, q, u) - self.Omega1(t, q, u)) @ e_c1",
+         new="        e_c2 = self.A_IJ2(t, q)[:, self.axis]\n        return e_c2 @ self.Omega2(t, q, u) - e_c2 @ self.Omega1(t, q, u)"),
     dict(id="c25-n-init", canary=True, what="tracking fields additionally initialised in __init__ (no behavioural change for C25)", file=REV,
          old="        self.angle_dot = self.l_dot\n\n        super().__init__(", new="        self.angle_dot = self.l_dot\n\n        self.n_full_rotations = 0\n        self.previous_quadrant = 1\n\n        super().__init__("),
     dict(id="c25-n1", canary=True, what="quadrant tests reordered inside the conjunctions", file=REV,
